@@ -2133,12 +2133,13 @@ WUR iwrc _lx_sblk_cmp_key(struct iwlctx *lx, struct sblk *sblk, int *resp) {
   }
   // With compound keys the cached prefix holds the compound part of the STORED key, whose encoded size may
   // differ from the one of the looked up key: a length test against the prefix is not conclusive then.
+  // A real-number key is compared as a number: a truncated copy of its text decides nothing. (Integer keys always fit.)
   if (  (sblk->flags & SBLK_FULL_LKEY)
-     || (!(dbflg & IWDB_COMPOUND_KEYS) && (ksize < lkl))
-     || (dbflg & (IWDB_VNUM64_KEYS | IWDB_REALNUM_KEYS))) {
+     || (!(dbflg & (IWDB_COMPOUND_KEYS | IWDB_REALNUM_KEYS)) && (ksize < lkl))
+     || (dbflg & IWDB_VNUM64_KEYS)) {
     res = _cmp_keys(dbflg, sblk->lk, lkl, key);
   } else {
-    res = _cmp_keys_prefix(dbflg, sblk->lk, lkl, key);
+    res = (dbflg & IWDB_REALNUM_KEYS) ? 0 : _cmp_keys_prefix(dbflg, sblk->lk, lkl, key);
     if (res == 0) {
       uint32_t kl;
       uint8_t *mm, *k;
